@@ -14,38 +14,59 @@ DRIVER = "drv_life"
 LEAN_TARGETS = ["Nstd.Life.Props", "Nstd.Life.PropsStable", DRIVER]
 
 _COMMON_NOTE = ("Trusted: Lean kernel + the three standard axioms; the hand translation of the eight container headers into the slot-level "
-                "model Nstd/Life/Model.lean (validated on every run by the correspondence: identical op lines on the real headers and on "
-                "the compiled model, exact comparison of contents, ledger counters and of the complete lifecycle event log "
-                "construct/copy/assign/destroy/alloc/free with canonical slot names); the harness element type and allocator ledger. "
-                "Modelled, not verified: AVL rebalancing and hash chains are abstracted (the model keeps iteration order, slots, free lists, "
-                "blocks; lookups are by payload) - their behaviour is the subject of C01/C02; comparisons of elements are not part of the event log "
-                "(the harness still checks that no destroyed object is compared). MultiMap::remove(key), MultiMap::insert(hint), List::sort and "
-                "find() are not driven by this check. Allocation never fails. The model mirrors the REPAIRED code (fixes/life/0001..0004).")
+                "model Nstd/Life/Model.lean (validated on every run by the correspondence, not proved: identical op lines on the real headers and on "
+                "the compiled model; exact comparison of contents, ledger counters and of the COMPLETE lifecycle event log "
+                "construct/copy/assign/destroy/alloc/free with canonical slot names (block serial, slot index, member), so free-list order, "
+                "block layout, Array reallocation and shifting, order of member construction/destruction are all compared); the harness element "
+                "type (Tracked/Fixed) and allocator ledger. Modelled, not verified: AVL rebalancing and hash chains are abstracted "
+                "(the model keeps iteration order, slots, free lists, blocks; lookups are by payload) - their behaviour is the subject of C01/C02; "
+                "comparisons / hashing of elements are not events of the log (the harness still counts any use of a destroyed object). "
+                "Not driven by this check: MultiMap::remove(key) and MultiMap::insert(hint) (result depends on the tree shape), List::sort (swaps "
+                "payloads between nodes), find() as an operation, Array(capacity)-constructor variants beyond newcap. Allocation never fails; "
+                "element constructors do not throw. The model mirrors the REPAIRED code (fixes/life/0001..0004: D2 self-assignment, D3 Array alias, "
+                "D4 List self-insert, D5 MultiMap copy); on a tree without these patches the check reports them as violations.")
 
 MANIFEST = {
     "C04": {
-        "technique": "Lean 4 proof over all operation histories of a slot-level lifecycle model of the eight containers "
-                     "(event-log well-formedness by invariant, deep-copy / frame, alias ops refine copy-first) + differential correspondence "
-                     "model vs real headers with an element/allocator ledger and an independent reference",
-        "text": "Theorems in Nstd/Life/Props.lean over all histories (including a = a, a.append(a[i]), a.resize(n, a[i]), l.append(l), "
-                "l.insert(pos, l), m.insert(k, *it), s.remove(s)): every emitted event log is accepted by an independent checker automaton "
-                "(per slot construct (assign|read)* destroy, reads only of live objects, every block allocated once and freed once with no live "
-                "object inside, nothing live after the destructors). The model is tied to the current headers on every run: exhaustive small scope, "
-                "Array alias ops at every size/capacity boundary, random histories; ASan/UBSan; ledger arithmetic and as-if-copied contents by a Python reference.",
-        "note": _COMMON_NOTE,
+        "technique": "Lean 4 proof over all operation histories of a slot-level lifecycle model of the eight containers (state invariant preserved "
+                     "by every micro step; event log accepted by an independent checker automaton; frame / alias refinement lemmas) + differential "
+                     "correspondence model vs real headers with an element/allocator ledger and an independent Python reference",
+        "text": "Theorems in lean/Nstd/Life/Props.lean, all for EVERY history incl. a = a, a.append(a[i]), a.resize(n, a[i]), a.append(&a[i], n), a.append(a), "
+                "l.append/prepend/insert(l), m.insert(k, *it), m.insert(m), s.append(s), s.remove(s): lifecycle_ok (complete event log incl. destructors accepted "
+                "by the checker: per slot construct (assign|read)* destroy, sources live, blocks allocated once / freed once with nothing live inside, "
+                "nothing live at the end; the destructors are always defined), lifecycle_prefix_ok, no_fault (no operation of a reachable state takes a "
+                "cannot-happen exit), blocks_released_only_by_destructor, copy_fresh(+_arr) (distinct variables never share a slot/storage), "
+                "copy_independent(+_arr) (an operation leaves every container it does not target unchanged, slots and abstract value), assign_self_noop, "
+                "append_ref / resize_ref / append_ptr / append_self _as_if_copied (Array), list_insert_self_as_if_copied, ref_arg_as_if_copied (any step with a "
+                "reference operand = same step with a temporary copy, up to the log) with Map/HashMap/List operation-level corollaries. "
+                "Tie to the current headers on every run: exhaustive small scope per container, Array alias ops at every size/capacity boundary, random histories, "
+                "ASan/UBSan, ledger arithmetic (constructed - destroyed = live = sum of sizes + sentinels, zero misuse counters, no block left) and "
+                "as-if-copied contents by the reference.",
+        "note": _COMMON_NOTE + " OPEN in Props.lean (only tested): copy_equal for the keyed kinds unless listed as proved in the evidence "
+                "(open_statements).",
         "design_ref": "DESIGN.md 3/C04",
     },
     "C05": {
         "technique": "Lean 4 proof over all operation histories of the slot-level model (an element leaves its slot only by being destroyed; swap hands "
                      "slots over; pool elements are constructed in place and never copied) + differential correspondence on object identity",
-        "text": "Theorems in Nstd/Life/Props.lean: for every operation and every element of List, Map, MultiMap, HashMap, HashSet, PoolList, PoolMap, "
-                "the element either is destroyed by the operation or keeps its slot and receives no construct/destroy event; swap exchanges the slot "
-                "lists; PoolList/PoolMap logs contain no copy/assign of an element. The harness checks on the real headers after every op that each element is the "
-                "same object (serial) at the address recorded in the ledger, that the iterator saved when it was first seen still designates it, or "
-                "that it was constructed by this very op, and the Python reference predicts exactly which elements are new.",
+        "text": "Theorems in lean/Nstd/Life/PropsStable.lean: stable (for every history, every further operation and every element of List, Map, MultiMap, "
+                "HashMap, HashSet, PoolList, PoolMap: the element is still an item in the SAME slot of a container of its kind, no object was constructed "
+                "or destroyed in that slot during the operation and its key is unchanged - or all its member objects were destroyed; never relocated), "
+                "insert_keeps_all and remove_keeps_others (sharp per-step forms: an insertion removes/relocates nothing, remove(iterator) destroys exactly "
+                "the designated element), swap_hands_over, pool_in_place / pool_ops_in_place (PoolList/PoolMap operations emit no copy construction of an "
+                "element and no assignment). The harness checks on the real headers after every op that each element is the same object (serial) at the "
+                "address recorded in the ledger, that the iterator saved when it was first seen and find(key) still designate it, or that it was constructed "
+                "by this very op; the Python reference predicts exactly which elements are new; long histories with long-lived elements and the three "
+                "client patterns (Server pools, Future contexts, Callback slots).",
         "note": _COMMON_NOTE,
         "design_ref": "DESIGN.md 3/C05",
     },
+}
+
+OPEN = {
+    "C04": ["copy_equal for containers whose proof is not in Props.lean (see Props.lean OPEN block): a copy has the contents of its source right after the copy - "
+            "tested by the correspondence and the reference only"],
+    "C05": [],
 }
 
 KINDS = "ALMUHSPQ"
@@ -601,6 +622,7 @@ def check(ctx):
         "AVL shape and hash chains are not part of the model (iteration order and lookup by payload are); MultiMap::remove(key) / insert(hint), List::sort are not driven",
     ]
     proof_ok = C.proof_stage(ctx, PROPS_BY[ctx.prop], [DRIVER], leanchecker=(ctx.tier == "thorough"))
+    ctx.cov["open_statements"] = list(OPEN[ctx.prop])
     harness = C.build_harness(ctx, "life_" + ctx.prop, sources(), extra_flags=["-Wno-invalid-offsetof"])
     if harness is None or not C.driver_path(DRIVER).exists():
         return
